@@ -5,7 +5,7 @@ S=$1; shift
 D=/verif/seeded/$S; read PROP CHECKS < $D/.plan
 WT=/tmp/seedwt-$S
 git -C /repo worktree remove --force $WT >/dev/null 2>&1; rm -rf $WT
-git -C /repo worktree add -q $WT HEAD || exit 9
+git -C /repo worktree add -q $WT ${SEED_BASE:-HEAD} || exit 9
 P=$D/patch.diff; [ -e $D/patch-src-only.diff ] && P=$D/patch-src-only.diff
 git -C $WT apply $P || { echo "PATCH DOES NOT APPLY"; git -C /repo worktree remove --force $WT; exit 9; }
 cd /verif
